@@ -402,6 +402,7 @@ type Acc struct {
 	errTexts map[string]bool
 	reuseDiff, routeDiff string
 	cfgDiff, capsDiff    string
+	noHooksDiff          string
 	HTTPHits             int
 	crdsSeen map[string][]string
 	bodyIncl map[string]bool
@@ -470,6 +471,7 @@ func (a *Acc) Result(crdsFirst []string) ObsLine {
 	o := Obs{Runs: a.Runs, DManifest: len(a.body), DHooks: len(a.hooks), DNotes: len(a.notes), DCrds: len(a.crd),
 		DEngine: len(a.eng), DErr: len(a.errs), DErrText: len(a.errTexts), ReuseSame: a.reuseDiff == "", RouteSame: a.routeDiff == "",
 		ReuseDiff: a.reuseDiff, RouteDiff: a.routeDiff, CfgReuseSame: a.cfgDiff == "", CfgReuseDiff: a.cfgDiff,
+		NoHooksSame: a.noHooksDiff == "", NoHooksDiff: a.noHooksDiff,
 		CapsConcSame: a.capsDiff == "", CapsConcDiff: a.capsDiff, HTTPHits: a.HTTPHits, Manifest: []ManEntry{}, Hooks: []HookEntry{}, Crds: []string{}, Engine: []int{},
 		NotesSeen: []string{}, CrdsSeen: [][]string{}, Schema: a.Schema, Uninst: a.Uninst, UninstErr: a.UninstErr, Err: "none"}
 	if a.First != nil {
@@ -843,5 +845,37 @@ func ObserveCaps(a *Acc, m *Materialised, rounds, conc int, seed int64) {
 			}(g, chSeed)
 		}
 		wg.Wait()
+	}
+}
+
+// ObserveNoHooks: DisableHooks only stops hooks from being EXECUTED; a dry run with it must record the same
+// manifest, hook list and notes as one without (client-only, and through a cluster connection with --dry-run=server).
+func ObserveNoHooks(a *Acc, m *Materialised, seed int64) {
+	a.mu.Lock()
+	first := a.First
+	a.mu.Unlock()
+	if first == nil {
+		return
+	}
+	r := rngFor(seed, "nohooks:"+a.Line.ID)
+	want := first.Triple()
+	if ch, err := m.Load("files", r); err == nil {
+		in := newInstall(m.Case, false)
+		in.DisableHooks = true
+		var o One
+		rel, err := in.Run(ch, map[string]interface{}{})
+		o.fill(m, rel, err)
+		if got := o.Triple(); got != want {
+			a.noteDiff(&a.noHooksDiff, fmt.Sprintf("client-only dry run with DisableHooks: %d hooks instead of %d", len(o.HookList), len(first.HookList)), got, want)
+		}
+	}
+	if m.Case.uses("LOOK") || m.Case.uses("DNS") && m.Case.DNS {
+		return
+	}
+	if ch, err := m.Load("files", r); err == nil {
+		o := routeRender(m, ch, true)
+		if got := o.Triple(); got != want {
+			a.noteDiff(&a.noHooksDiff, fmt.Sprintf("--dry-run=server with DisableHooks: %d hooks instead of %d", len(o.HookList), len(first.HookList)), got, want)
+		}
 	}
 }
